@@ -250,3 +250,133 @@ Proof.
   assert (H4 : (Z.of_nat (length (bc_list c)) <= 1000000)%Z) by (vm_compute; discriminate).
   exact (conj H0 (conj H1 (conj H2 (conj H3 (conj H4 (C03_reread_closed c 41%Z H0 H1 H2 ltac:(lia) H3 H4)))))).
 Qed.
+
+(* ================================================================================================== *)
+(* added from Properties/C03_add.v (2026-10-01)  *)
+(* ================================================================================================== *)
+(* C03 (addition)  SDicts with comments AND include directives: one write/read cycle is a fixed point. *)
+From Coq Require Import String.   (* string literals of the examples; imported first so the list names win *)
+From Coq Require Import NArith ZArith List Bool Lia.
+From DictIO Require Import Chars Str Value Scalar KeyPath SDict Layout Lexer TokParser TreeSpec NativeSpec LayoutSpec E2ESpec.
+From DictIO Require Import E2EProofs E2EHoles E2EKeyTok E2EFullProofs LayoutProofs.
+From DictIO Require Import RereadPlain RereadStr RereadTree RereadWrite RereadLex RereadNum RereadProofs RereadFix RereadOff.
+From DictIO Require Import RereadIncStage RereadIncLex RereadIncParse RereadIncRead RereadIncWrite RereadIncProofs RereadIncFix.
+Import ListNotations.
+Open Scope N_scope.
+
+(* Reading the text written for an SDict of the class rereadable_inc (see C12_add.v: comments at any dict level, include
+   entries at top level) returns  number_inc dir count (written_doc_inc s) (inc_names s) : the canonical comment document
+   renumbered in text order, with one include entry per directive behind the top-level block comments (ids = the counter
+   values after those of the line comments), and the include table (directive, name, path_join dir name). *)
+Theorem C03_reread_inc_partial : forall s dir count, rereadable_inc s = true -> (Z.of_nat (length (sd_lc s)) < 1000000)%Z -> (-1 <= count)%Z ->
+  (Z.of_nat (length (lc_list (written_doc_inc s))) <= 1000000)%Z -> (Z.of_nat (length (bc_list (written_doc_inc s))) <= 1000000)%Z ->
+  (Z.of_nat (length (lit_list (written_doc_inc s))) <= 1000000)%Z -> (Z.of_nat (length (inc_names s)) <= 1000000)%Z ->
+  parse_string true dir count (to_string_sd s) =
+  Ok (mkParsed (number_inc dir count (written_doc_inc s) (inc_names s)) (count_after_inc count (written_doc_inc s) (inc_names s))).
+Proof. exact reread_inc. Qed.
+Print Assumptions C03_reread_inc_partial.
+
+(* The fixed point.  With c = the canonical document of the written text, names = the file names of the include entries,
+   s1 = the SDict read back, c1 = c with its leaves read back: s1 is again in the class, with the same names; the second
+   cycle (possibly from another folder and another counter value) returns an SDict s2 with the same canonical document c1
+   and the same names; and writing s2 reproduces the text written for s1 byte for byte. *)
+Theorem C03_reread_inc_fixed_point_partial : forall s dir count dir' count', rereadable_inc s = true -> (Z.of_nat (length (sd_lc s)) < 1000000)%Z ->
+  (-1 <= count)%Z -> (-1 <= count')%Z ->
+  (Z.of_nat (length (lc_list (written_doc_inc s))) < 1000000)%Z -> (Z.of_nat (length (bc_list (written_doc_inc s))) <= 1000000)%Z ->
+  (Z.of_nat (length (lit_list (written_doc_inc s))) <= 1000000)%Z -> (Z.of_nat (length (inc_names s)) <= 1000000)%Z ->
+  let c := written_doc_inc s in let names := inc_names s in
+  let s1 := number_inc dir count c names in let c1 := cwv c in let s2 := number_inc dir' count' c1 names in
+  parse_string true dir count (to_string_sd s) = Ok (mkParsed s1 (count_after_inc count c names)) /\
+  rereadable_inc s1 = true /\
+  parse_string true dir' count' (to_string_sd s1) = Ok (mkParsed s2 (count_after_inc count' c1 names)) /\
+  written_doc_inc s1 = c1 /\ written_doc_inc s2 = c1 /\ inc_names s1 = names /\ inc_names s2 = names /\
+  to_string_sd s2 = to_string_sd s1.
+Proof. exact reread_inc_fixed_point. Qed.
+Print Assumptions C03_reread_inc_fixed_point_partial.
+
+(* the re-read SDict of a sorted comment document with a marked header and a list of admissible, pairwise distinct names is
+   in the class, its written document is the document with its leaves read back, its include names are the names *)
+Theorem C03_reread_inc_closed : forall dir count c names, cdoc_ok c = true -> csort c = c -> has_header c = true -> (-1 <= count)%Z ->
+  (Z.of_nat (length (lc_list c)) <= 1000000)%Z -> (Z.of_nat (length (bc_list c)) <= 1000000)%Z -> (Z.of_nat (length names) <= 1000000)%Z ->
+  forallb name_cond names = true -> NoDup names -> forallb incfree (bc_list c) = true ->
+  rereadable_inc (number_inc dir count c names) = true /\ written_doc_inc (number_inc dir count c names) = cwv c /\
+  inc_names (number_inc dir count c names) = names /\ length (sd_lc (number_inc dir count c names)) = length (lc_list c).
+Proof. exact number_inc_rereadable. Qed.
+Print Assumptions C03_reread_inc_closed.
+
+(* the example SDict: a line comment first, an include entry, a string that is re-typed (0012), a second include entry (a file
+   in a sub-directory; the ids are not in text order), a top-level block comment WITHOUT the C++ mark (so the default header
+   is put in front of it), a nested dict with a block comment and a quoted string *)
+Definition ex03i_ph (w : str) (i : N) : key * tree := (KS (placeholder w i), Leaf (SStr (placeholder w i))).
+Definition ex03i_sd : sdict :=
+  mkSD [ ex03i_ph w_LINECOMMENT 9; ex03i_ph w_INCLUDE 7; (KS (of_string "a"), Leaf (SStr (of_string "0012")));
+         ex03i_ph w_INCLUDE 3; ex03i_ph w_BLOCKCOMMENT 2;
+         (KS (of_string "sub"), Dict [ex03i_ph w_BLOCKCOMMENT 5; (KS (of_string "b"), Leaf (SStr (of_string "x y")))]) ]
+       [(9, of_string "// nine")] [(2, of_string "/* two */"); (5, of_string "/* five */")]
+       [(3, (of_string "#include 'sub/inc.dict'", of_string "sub/inc.dict", of_string "/d/sub/inc.dict"));
+        (7, (of_string "#include 'top.dict'", of_string "top.dict", of_string "/d/top.dict"))] [].
+
+Example C03_reread_inc_fixed_point_partial_nonvacuous :
+  let c := written_doc_inc ex03i_sd in let names := inc_names ex03i_sd in
+  let s1 := number_inc (of_string "/e") 41 c names in let s2 := number_inc (of_string "/f") 46 (cwv c) names in
+  rereadable_inc ex03i_sd = true /\
+  to_string_sd ex03i_sd = native_header ++ of_string
+"/* two */
+#include top.dict
+#include 'sub/inc.dict'
+// nine
+a                             0012;
+sub
+{
+    /* five */
+    b                         'x y';
+}
+" /\
+  parse_string true (of_string "/e") 41 (to_string_sd ex03i_sd) = Ok (mkParsed s1 45) /\ rereadable_inc s1 = true /\
+  parse_string true (of_string "/f") 46 (to_string_sd s1) = Ok (mkParsed s2 50) /\
+  written_doc_inc s1 = cwv c /\ written_doc_inc s2 = cwv c /\ inc_names s1 = names /\ inc_names s2 = names /\
+  to_string_sd s2 = to_string_sd s1 /\
+  (* the include tables of the two cycles: same names, ids from the counter, paths relative to the folder read from *)
+  sd_inc s1 = [(43, (of_string "#include top.dict", of_string "top.dict", of_string "/e/top.dict"));
+               (44, (of_string "#include 'sub/inc.dict'", of_string "sub/inc.dict", of_string "/e/sub/inc.dict"))] /\
+  sd_inc s2 = [(48, (of_string "#include top.dict", of_string "top.dict", of_string "/f/top.dict"));
+               (49, (of_string "#include 'sub/inc.dict'", of_string "sub/inc.dict", of_string "/f/sub/inc.dict"))] /\
+  (* the first cycle changes the text (0012 becomes 12), the second does not *)
+  to_string_sd s1 <> to_string_sd ex03i_sd.
+Proof.
+  intros c names s1 s2.
+  assert (H0 : rereadable_inc ex03i_sd = true) by (vm_compute; reflexivity).
+  assert (Hl : (Z.of_nat (length (sd_lc ex03i_sd)) < 1000000)%Z) by (vm_compute; reflexivity).
+  assert (H1 : (Z.of_nat (length (lc_list (written_doc_inc ex03i_sd))) < 1000000)%Z) by (vm_compute; reflexivity).
+  assert (H2 : (Z.of_nat (length (bc_list (written_doc_inc ex03i_sd))) <= 1000000)%Z) by (vm_compute; discriminate).
+  assert (H3 : (Z.of_nat (length (lit_list (written_doc_inc ex03i_sd))) <= 1000000)%Z) by (vm_compute; discriminate).
+  assert (H4 : (Z.of_nat (length (inc_names ex03i_sd)) <= 1000000)%Z) by (vm_compute; discriminate).
+  destruct (C03_reread_inc_fixed_point_partial ex03i_sd (of_string "/e") 41%Z (of_string "/f") 46%Z H0 Hl ltac:(lia) ltac:(lia) H1 H2 H3 H4)
+    as (A & B & C & D & E & F & G & H).
+  assert (Hc1 : count_after_inc 41 (written_doc_inc ex03i_sd) (inc_names ex03i_sd) = 45%Z) by (vm_compute; reflexivity). rewrite Hc1 in A.
+  assert (Hc2 : count_after_inc 46 (cwv (written_doc_inc ex03i_sd)) (inc_names ex03i_sd) = 50%Z) by (vm_compute; reflexivity). rewrite Hc2 in C.
+  split; [exact H0|]. split; [vm_compute; reflexivity|]. split; [exact A|]. split; [exact B|]. split; [exact C|].
+  split; [exact D|]. split; [exact E|]. split; [exact F|]. split; [exact G|]. split; [exact H|].
+  split; [vm_compute; reflexivity|]. split; [vm_compute; reflexivity|]. vm_compute. discriminate.
+Qed.
+
+Example C03_reread_inc_closed_nonvacuous :
+  let c := written_doc_inc ex03i_sd in let names := inc_names ex03i_sd in
+  cdoc_ok c = true /\ csort c = c /\ has_header c = true /\ forallb name_cond names = true /\ NoDup names /\ forallb incfree (bc_list c) = true /\
+  rereadable_inc (number_inc (of_string "/e") 41 c names) = true /\ written_doc_inc (number_inc (of_string "/e") 41 c names) = cwv c /\
+  inc_names (number_inc (of_string "/e") 41 c names) = names.
+Proof.
+  intros c names.
+  assert (H0 : cdoc_ok c = true) by (vm_compute; reflexivity).
+  assert (H1 : csort c = c) by (vm_compute; reflexivity).
+  assert (H2 : has_header c = true) by (vm_compute; reflexivity).
+  assert (H3 : forallb name_cond names = true) by (vm_compute; reflexivity).
+  assert (H4 : NoDup names) by (apply nodupb_NoDup; vm_compute; reflexivity).
+  assert (H5 : forallb incfree (bc_list c) = true) by (vm_compute; reflexivity).
+  assert (B1 : (Z.of_nat (length (lc_list c)) <= 1000000)%Z) by (vm_compute; discriminate).
+  assert (B2 : (Z.of_nat (length (bc_list c)) <= 1000000)%Z) by (vm_compute; discriminate).
+  assert (B3 : (Z.of_nat (length names) <= 1000000)%Z) by (vm_compute; discriminate).
+  destruct (C03_reread_inc_closed (of_string "/e") 41%Z c names H0 H1 H2 ltac:(lia) B1 B2 B3 H3 H4 H5) as (A & B & C & _).
+  split; [exact H0|]. split; [exact H1|]. split; [exact H2|]. split; [exact H3|]. split; [exact H4|]. split; [exact H5|].
+  split; [exact A|]. split; [exact B|exact C].
+Qed.
